@@ -1,5 +1,6 @@
 CFG = {
     "lean_targets": ["Norad.Props.C10"],
+    "extract": "kern_consts",
     "audit": "Norad/Audit/C10.lean",
     "rule": ("generated format 1/2/3 trees whose kerning groups collide after prefixing (up to 12 groups over both sides, pairs among them) and, "
              "for format 1, robofab feature data (0-4 blocks over an 8-tag pool, with/without classes, with/without a featureorder list incl. "
